@@ -32,6 +32,18 @@ pub fn split_modules(payload: &str) -> Vec<(String, String)>
 	modules
 }
 
+/// The compiler gave up with an error that is not a diagnostic (main.rs prints
+/// "Error: <message>" and exits with status 1, without any error code).
+fn internal_error(e: anyhow::Error) -> Compiled
+{
+	let msg: String = format!("{}", e).chars().take(60).collect();
+	Compiled {
+		verdict: format!("internal-error:{}", msg.replace(' ', "_")),
+		module_irs: vec![],
+		linked_ir: None,
+	}
+}
+
 pub fn compile(sources: &[(String, String)], wasm: bool) -> Compiled
 {
 	let mut modules = Vec::new();
@@ -77,7 +89,12 @@ pub fn compile(sources: &[(String, String)], wasm: bool) -> Compiled
 		let filename = filepath.to_str().unwrap().to_string();
 		compiler.add_module(&filename).unwrap();
 		let declarations = scoper::analyze(declarations);
-		match compiler.analyze_and_resolve(declarations).unwrap()
+		let analyzed = match compiler.analyze_and_resolve(declarations)
+		{
+			Ok(x) => x,
+			Err(e) => return internal_error(e),
+		};
+		match analyzed
 		{
 			Ok(resolved) =>
 			{
@@ -85,8 +102,15 @@ pub fn compile(sources: &[(String, String)], wasm: bool) -> Compiled
 					.extend(compiler.take_lints().iter().map(|l| l.code()));
 				if !failed
 				{
-					compiler.compile(&resolved).unwrap();
-					let ir = compiler.generate_ir().unwrap();
+					if let Err(e) = compiler.compile(&resolved)
+					{
+						return internal_error(e);
+					}
+					let ir = match compiler.generate_ir()
+					{
+						Ok(ir) => ir,
+						Err(e) => return internal_error(e),
+					};
 					module_irs.push((filename, ir));
 				}
 			}
